@@ -2,6 +2,8 @@
 from __future__ import annotations
 
 import contextlib
+import json
+import os
 import io
 import traceback
 
@@ -112,7 +114,9 @@ def one_run(ctx, launch, uros, msgs, rng, k):
     # the configured magnitudes are configuration too (gravity is shared by simulator and estimator)
     if flipped and rng.random() < 0.5:
         P["mrp/dt_min_accel"], P["mrp/dt_min_mag"] = 1 / 50, 1 / 15
-    sparse_corr = (not flipped) and rng.random() < 0.12
+    # (only with the initialisation step: from a far-off start corrections twice a second converge over many minutes -- the
+    #  thorough tier found a 170-degree uninitialised start still at 0.07 rad after 150 s on the unchanged tree)
+    sparse_corr = init and (not flipped) and rng.random() < 0.2
     if sparse_corr:
         # sparse corrections (0.5 s / 1 s): between them the estimate rides on its own integration of the gyro alone
         P["mrp/dt_min_accel"], P["mrp/dt_min_mag"] = float(rng.choice([0.25, 0.5])), float(rng.choice([0.5, 1.0]))
@@ -337,6 +341,9 @@ def one_run(ctx, launch, uros, msgs, rng, k):
         emax, bend, ref_mid = convergence(t2, log2["sim_attitude"]["q"], log2["mrp_attitude"]["q"], log2["sim_attitude"]["b"], log2["mrp_attitude"]["b"], 100.0, long_tf)
         horizon = long_tf
         ctx.note("escalated_run%d" % k, {"case": {k_: (v.tolist() if hasattr(v, "tolist") else v) for k_, v in case.items()}, "max_att_err_100_150s": emax, "bias_err_end": bend.tolist()})
+    if os.environ.get("VERIF_C12_DUMP"):
+        with open(os.environ["VERIF_C12_DUMP"], "a") as fh:
+            fh.write(json.dumps({"emax": emax, "horizon": horizon, "shard": ctx.shard, "k": k, "case": {k_: (v_.tolist() if hasattr(v_, "tolist") else v_) for k_, v_ in case.items()}}) + "\n")
     ctx.check_array("attitude_error_after_transient", "log", [emax], 0.05, {"x0": case["x0"][None, :], "initialize": [float(init)], "incl": [incl], "decl": [decl],
                                                                            "dt_imu": [P["sim/dt_imu"]], "dt_mag": [P["sim/dt_mag"]], "dt_sim": [P["sim/dt_sim"]],
                                                                            "dt_min_accel": [P["mrp/dt_min_accel"]], "dt_min_mag": [P["mrp/dt_min_mag"]], "horizon": [horizon]})
